@@ -53,10 +53,15 @@ TEXT = {
             'fake proofreader mimics LanguageTool answers; real LanguageTool is not run', TECH + '; location equality across report formats; CLI conformance replay'),
     'C15': ('fault_enumeration', 'All single-field deletions, type changes, value perturbations and byte truncations of a valid answer x output modes; oracle: in-file report or one-line diagnostic with exit status 1.',
             'the answer menu is built from the fields LanguageTool sends', 'exhaustive answer-fault enumeration (deviation bound 1, pairs in thorough); CLI conformance replay'),
-    'C16': ('model_checking', 'Plain-input sources x all sets of up to 2 (quick) / 3 matches over all in-range offsets and lengths x context sizes x hostile strings; oracle parses the report with html.parser and compares rows, highlights and titles with the source.',
+    'C16': ('model_checking', 'Plain-input sources x all sets of up to 2 matches (3 on short sources) over all in-range offsets and lengths x context sizes x hostile strings, and runs with two files; oracle parses the report with html.parser and compares rows, highlights and titles with the source.',
             'html.parser is the trusted reader of the markup', TECH + '; HTML structure model'),
-    'C17': ('model_checking', 'Breadth-first search over call histories from an event menu; a node is a canonical fingerprint of all yalafi module state; every event result in every node is compared with its fresh-process baseline; search ends when the graph is closed or at the depth bound.',
-            'fingerprint covers module globals, defaults and closures of yalafi.*; differential comparison guards it up to the explored depth', 'explicit-state BFS with state hashing over the real interpreter state; fresh-process differential oracle'),
+    'C17': ('model_checking', 'Every call history up to depth 2 (quick; 3 thorough, plus depth 3 behind the writer calls) over 36 (document, options) calls, and every '
+            'request history up to depth 3 (4) over 11 requests to one initialised server, is executed in a forked child of a pristine worker; the last '
+            'result and its immediate repetition are compared with the same call made alone in a fresh process. Each edge records a canonical fingerprint '
+            'of all yalafi module state before and after the call; evidence reports distinct states, edges and whether the state graph is closed. '
+            'Three request sequences are replayed against a real --as-server process.',
+            'fingerprint covers module globals, defaults, closures and class attributes of yalafi.*; the differential comparison guards it up to the explored depth',
+            'explicit-state exploration of call histories on the real interpreter with state hashing; fresh-process differential oracle'),
     'C18': ('model_checking', 'Extraction: listed/unlisted macros in every context. Inclusion: all 2197 inclusion graphs over three files x start lists x skip patterns through the real top-level shell code; oracle is a 7-line work-list model; CLI conformance.',
             'three files suffice to exhibit cycles, self-inclusion and duplicates', TECH + '; work-list model over all graphs'),
     'C19': ('model_checking', 'Documents with declared and undeclared names in every context, before/after definitions, package selections; oracle: ordered set of first uses.',
